@@ -2198,5 +2198,68 @@ Corollary parse_marshal_reparse : forall g p w,
   exists p' w', reparse_json p = Ok p' w' /\ mj_pipeline p' = mj_pipeline p.
 Proof. intros. apply reparse_fixpoint. eapply parse_result_fix_ok; eassumption. Qed.
 
+(** non-vacuity: a document exercising every step kind, aliases next to a non-empty key, plugins,
+    matrix with adjustments, cache, env, unknown steps and extra fields satisfies every hypothesis *)
+Definition demo_doc : gv :=
+  GMap [("env", GMap [("A", GStr "b")]);
+        ("steps", GSeq [
+           GMap [("command", GStr "make"); ("key", GStr "k"); ("id", GStr "other"); ("zzz", GInt 3);
+                 ("plugins", GSeq [GMap [("docker#v1.0", GMap [("image", GStr "x"); ("n", GInt 2)])]]);
+                 ("env", GMap [("Z", GStr "1"); ("B", GInt 2)]);
+                 ("matrix", GMap [("setup", GMap [("os", GSeq [GStr "a"; GStr "b"]); ("arch", GStr "x")]);
+                                  ("adjustments", GSeq [GMap [("with", GMap [("os", GStr "a"); ("arch", GStr "x")]); ("skip", GBool true)]]);
+                                  ("extra", GFloat "1.5" "1.5")]);
+                 ("cache", GMap [("paths", GSeq [GStr "p"]); ("foo", GNull)])];
+           GStr "wait";
+           GMap [("wait", GNull); ("continue_on_failure", GBool true)];
+           GMap [("type", GStr "trigger"); ("trigger", GStr "pipe")];
+           GMap [("group", GStr "G"); ("key", GStr "gk"); ("name", GStr "zz");
+                 ("steps", GSeq [GMap [("commands", GSeq [GStr "x"; GStr "y"]); ("name", GStr "lab")]; GStr "block"])];
+           GMap [("foo", GStr "bar")];
+           GStr "nonsense"]);
+        ("other", GFloat "1.5" "1.5")].
+
+
+Ltac nd := apply nodupb_sound; vm_compute; reflexivity.
+Ltac pred :=
+  repeat first
+    [ exact I
+    | match goal with
+      | |- _ /\ _ => split
+      | |- NoDup _ => nd
+      | |- Forall _ _ => constructor
+      | |- num_stable _ => apply num_stable_float; reflexivity
+      | |- _ <> _ => discriminate
+      | |- exists _, _ => eexists
+      | |- _ = _ => reflexivity
+      | |- ~ In _ _ => (cbn [In map fst]; intuition discriminate)
+      | |- _ -> _ => let H := fresh in intro H; try discriminate H
+      end ].
+
+Example demo_ok : exists p w,
+  parse_doc demo_doc = Ok p w /\ doc_ok demo_doc /\
+  no_empty_primary_with_alias p /\ plugin_sources_canonical p /\ adjustments_have_with p /\ unknowns_stay_unknown p.
+Proof.
+  remember (parse_doc demo_doc) as r eqn:Er. vm_compute in Er.
+  eexists. eexists. split; [rewrite Er; reflexivity|].
+  split. { unfold doc_ok, demo_doc. cbn [gv_wf map fst snd]. pred. }
+  split. { unfold no_empty_primary_with_alias, pipeline_all. cbn [pp_steps].
+           repeat constructor; cbn [alias_local alias_free cs_key cs_label cs_rem]; try (intros; discriminate); pred. }
+  split. { unfold plugin_sources_canonical, pipeline_all. cbn [pp_steps].
+           repeat constructor; cbn [sources_local cs_plugins]; pred. }
+  split. { unfold adjustments_have_with, pipeline_all. cbn [pp_steps].
+           repeat constructor; cbn [with_local cs_matrix mx_adj adj_has_with ma_with]; pred. }
+  unfold unknowns_stay_unknown, pipeline_all. cbn [pp_steps].
+  repeat constructor; cbn [unknown_local gv_json gv_of_json jmap gmap map fst snd unknown_again]; pred.
+Qed.
+
+Example demo_fixpoint : exists p w p' w',
+  parse_doc demo_doc = Ok p w /\ reparse_json p = Ok p' w' /\ mj_pipeline p' = mj_pipeline p.
+Proof.
+  destruct demo_ok as (p & w & H & W & R1 & R2 & R3 & R4).
+  destruct (parse_marshal_reparse _ _ _ H W R1 R2 R3 R4) as (p' & w' & E1 & E2).
+  exists p, w, p', w'. auto.
+Qed.
+
 Print Assumptions reparse_fixpoint.
 Print Assumptions parse_marshal_reparse.
